@@ -413,6 +413,7 @@ RESET_TIMER:
 		// make sure write do not overflow the max sliding window on both side
 		waitsnd := s.kcp.WaitSnd()
 		if waitsnd < int(s.kcp.snd_wnd) {
+			verifEv("s.wadmit", s, int64(s.kcp.snd_buf.Len()+s.kcp.snd_queue.Len()), int64(s.kcp.snd_wnd), 0)
 			// transmit all data sequentially, make sure every packet size is within 'mss'
 			for _, b := range v {
 				n += len(b)
